@@ -930,11 +930,15 @@ where
                 D: serde::de::Deserializer<'de>,
             {
                 // Anchor context is established by de.rs when the special name is used.
-                let id = anchor_store::current_rc_anchor().ok_or_else(|| {
-                    D::Error::custom(
-                        "weak Rc anchor must refer to an existing strong anchor via alias",
-                    )
-                })?;
+                let Some(id) = anchor_store::current_rc_anchor() else {
+                    // A dangling weak reference is written as `null`; read it back as one.
+                    return match <Option<serde::de::IgnoredAny> as serde::de::Deserialize>::deserialize(deserializer)? {
+                        None => Ok(RcWeakAnchor(RcWeak::new())),
+                        Some(_) => Err(D::Error::custom(
+                            "weak Rc anchor must refer to an existing strong anchor via alias",
+                        )),
+                    };
+                };
                 // Consume and ignore the inner node to keep the stream in sync (alias replay injects the full target node).
                 let _ =
                     <serde::de::IgnoredAny as serde::de::Deserialize>::deserialize(deserializer)?;
@@ -977,11 +981,15 @@ where
             where
                 D: serde::de::Deserializer<'de>,
             {
-                let id = anchor_store::current_arc_anchor().ok_or_else(|| {
-                    D::Error::custom(
-                        "weak Arc anchor must refer to an existing strong anchor via alias",
-                    )
-                })?;
+                let Some(id) = anchor_store::current_arc_anchor() else {
+                    // A dangling weak reference is written as `null`; read it back as one.
+                    return match <Option<serde::de::IgnoredAny> as serde::de::Deserialize>::deserialize(deserializer)? {
+                        None => Ok(ArcWeakAnchor(ArcWeak::new())),
+                        Some(_) => Err(D::Error::custom(
+                            "weak Arc anchor must refer to an existing strong anchor via alias",
+                        )),
+                    };
+                };
                 // Consume and ignore the inner node (alias replay injects the target node events).
                 let _ =
                     <serde::de::IgnoredAny as serde::de::Deserialize>::deserialize(deserializer)?;
